@@ -1,0 +1,5 @@
+//go:build !verif
+
+package roundrobin
+
+func verifEmit(string, interface{}, ...interface{}) {}
